@@ -20,6 +20,7 @@ DecodeReason(e) ==
              bad == SelectSeq(names, LAMBDA n : e.used.f[n] # e.want[n]) IN
          "used_packet_field_" \o (IF bad = <<>> THEN "record_shape" ELSE bad[1])
   ELSE IF e.used.out # e.want.Payload THEN "used_packet_returned_bytes"
+  ELSE IF ~e.append_safe THEN "decoded_lists_share_memory"      \* the caller appended to one list of the decoded descriptor
   ELSE ""
 HeaderReason(e) ==
   IF e.res = "panic" \/ e.trunc_panics # 0 THEN "header_panic"
